@@ -284,7 +284,12 @@ func (w *worker[T, JobType]) processNextJob() error {
 	}
 
 	w.curProcessing.Add(1)
-	j.setAckId(ackId)
+
+	// in-memory jobs carry no receipt; leaving them untouched keeps the
+	// dispatcher from writing a field their owner may read in Close()
+	if ackId != "" {
+		j.setAckId(ackId)
+	}
 
 	// then job will be process by the processSingleJob function inside spawnWorker
 	w.sendToNextChannel(j)
